@@ -98,6 +98,8 @@ def match_known(inst, known, prop):
 
 
 def write_evidence(prop, tier, seed, coverage, assumptions, wall, nviol):
+    if os.environ.get('VERIF_NO_EVIDENCE'):      # evaluation of scratch copies must not overwrite the evidence of /repo
+        return None
     os.makedirs(os.path.join(VERIF, 'evidence'), exist_ok=True)
     ev = {
         'property_id': prop, 'tier': tier, 'seed': seed, 'level': 'other',
@@ -114,6 +116,8 @@ def write_evidence(prop, tier, seed, coverage, assumptions, wall, nviol):
 
 
 def write_replay(prop, n, payload):
+    if os.environ.get('VERIF_NO_EVIDENCE'):
+        return '/dev/null'
     d = os.path.join(VERIF, 'out', prop)
     os.makedirs(d, exist_ok=True)
     path = os.path.join(d, 'violation_%d.json' % n)
